@@ -48,3 +48,755 @@ Proof.
   eexists _, _, _. split; [vm_compute; reflexivity|]. split; [vm_compute; reflexivity|].
   split; [vm_compute; reflexivity|]. discriminate.
 Qed.
+
+(* ------------------------------------------------------------------------------------------- *)
+(* merge_undo: merging the diff that undoes the changes leaves nothing                            *)
+(* ------------------------------------------------------------------------------------------- *)
+Section WithSchema.
+Variable sch : schema.
+Variable mdflt : bool.
+
+Notation schema_nouo := (DiffMerge.schema_nouo sch).
+
+Lemma lookup_in s i : lookup sch s = Some i -> exists k, In (k, i) sch /\ k = s.
+Proof.
+  induction sch as [|[k j] r IH]; cbn [lookup]; [discriminate|].
+  destruct (k =? s) eqn:E.
+  - intro H. inversion H; subst. apply N.eqb_eq in E. exists k. split; [left; reflexivity|exact E].
+  - intro H. destruct (IH H) as [k' [Hin Ek]]. exists k'. split; [right; exact Hin|exact Ek].
+Qed.
+
+Lemma nouo_all : schema_nouo = true -> forall s, userordered sch s = false.
+Proof.
+  unfold DiffMerge.schema_nouo. intros H s. destruct (lookup sch s) as [i|] eqn:E.
+  - destruct (lookup_in s i E) as [k [Hin ->]]. rewrite forallb_forall in H. specialize (H _ Hin). cbn [fst] in H.
+    apply negb_true_iff. exact H.
+  - unfold userordered, sget. rewrite E. reflexivity.
+Qed.
+
+Lemma dd_id_iff j d : has_id sch j (dd_node d) = true <-> dd_id sch d = Some j.
+Proof. unfold dd_id. apply has_id_iff. Qed.
+
+Lemma dd_match_idx_split l1 t l2 i :
+  dd_id sch t = Some i -> (forall x, In x l1 -> dd_id sch x <> Some i) ->
+  dd_match_idx sch (l1 ++ t :: l2) (Some i) = Some (length l1).
+Proof.
+  intros Ht Hn. cbn [dd_match_idx]. apply find_idx_first; [apply dd_id_iff; exact Ht|].
+  intros y Hy. destruct (has_id sch i (dd_node y)) eqn:E; [|reflexivity]. apply dd_id_iff in E. exfalso. apply (Hn y Hy E).
+Qed.
+
+Lemma dd_match_idx_exists l y j : In y l -> dd_id sch y = Some j -> exists k, dd_match_idx sch l (Some j) = Some k.
+Proof.
+  intros Hy Hj. cbn [dd_match_idx]. destruct (find_idx (fun d => has_id sch j (dd_node d)) l) as [k|] eqn:E; [exists k; reflexivity|].
+  pose proof (find_idx_none _ _ E y Hy) as H. apply (proj2 (dd_id_iff j y)) in Hj. congruence.
+Qed.
+
+Lemma set_ops_nokeys_false f : forall l, set_ops_nokeys sch false l f = map f l.
+Proof. induction l as [|c l IH]; [reflexivity|]. cbn [set_ops_nokeys map andb]. rewrite IH. reflexivity. Qed.
+
+Lemma set_ops_nokeys_true f : forall l, set_ops_nokeys sch true l f = dd_leadkeys sch l ++ map f (dd_nokeys sch l).
+Proof.
+  induction l as [|c l IH]; [reflexivity|]. cbn [set_ops_nokeys dd_leadkeys dd_nokeys andb].
+  destruct (is_key sch (dd_sid c)).
+  - cbn [app]. rewrite IH. reflexivity.
+  - cbn [app map]. rewrite set_ops_nokeys_false. reflexivity.
+Qed.
+
+Lemma merge_children_lead step np oup : forall l cur fl up,
+  merge_children sch step np oup true l cur fl up = merge_children sch step np oup false (dd_nokeys sch l) cur fl up.
+Proof.
+  induction l as [|c l IH]; intros cur fl up; [reflexivity|].
+  cbn [merge_children dd_nokeys andb]. destruct (is_key sch (dd_sid c)); [apply IH|]. cbn [merge_children andb]. reflexivity.
+Qed.
+
+Lemma merge_children_false_cons step np oup c l cur fl up :
+  merge_children sch step np oup false (c :: l) cur fl up =
+  match step c cur with
+  | Err e => Err e
+  | Ok (cur', sg) => let '(fl', ups) := walks np fl oup sg in merge_children sch step np oup false l cur' fl' (up ++ ups)
+  end.
+Proof. reflexivity. Qed.
+
+(* the found case of lyd_diff_merge_r *)
+Lemma merge_r_found inh_s src inh_t l1 t l2 i sop cur :
+  userordered sch (dd_sid src) = false -> eff_op inh_s (dd_op src) = Some sop ->
+  dd_id sch src = Some i -> dd_id sch t = Some i -> (forall x, In x l1 -> dd_id sch x <> Some i) ->
+  eff_op inh_t (dd_op t) = Some cur ->
+  merge_r sch mdflt inh_s src inh_t (l1 ++ t :: l2) =
+    match (match sop with
+           | OpReplace => merge_replace sch cur t src
+           | OpCreate => merge_create sch mdflt cur t src
+           | OpDelete => merge_delete sch cur t src
+           | OpNone => merge_none sch cur t src
+           end) with
+    | Err e => Err e
+    | Ok (t1, sg1) =>
+        match merge_children sch (fun c cur' => merge_r sch mdflt (child_inh inh_s (dd_op src)) c
+                                                       (child_inh inh_t (dd_op t1)) cur')
+                             (is_np_cont sch (dd_sid src)) (forallb dd_dflt (l1 ++ l2))
+                             true (dd_ch src) (dd_ch t1) (dd_dflt t1) [] with
+        | Err e => Err e
+        | Ok (ch', fl', ups) =>
+            let t2 := dd_set_dflt (dd_set_ch t1 ch') fl' in
+            match is_redundant sch (eff_op inh_t (dd_op t2)) t2 with
+            | Err e => Err e
+            | Ok true => Ok (l1 ++ l2, sg1 ++ ups ++ [SSet (forallb dd_dflt (l1 ++ l2))])
+            | Ok false => Ok (l1 ++ t2 :: l2, sg1 ++ ups)
+            end
+        end
+    end.
+Proof.
+  intros Hu Hs Hi Ht Hn Hc. destruct src as [s v f op od ov ch]. cbn [dd_sid dd_op dd_ch] in *.
+  cbn [merge_r]. rewrite Hu, Hs, Hi, (dd_match_idx_split l1 t l2 i Ht Hn).
+  rewrite nth_split_at, Hc, others_split.
+  destruct (match sop with
+            | OpReplace => merge_replace sch cur t (DD s v f op od ov ch)
+            | OpCreate => merge_create sch mdflt cur t (DD s v f op od ov ch)
+            | OpDelete => merge_delete sch cur t (DD s v f op od ov ch)
+            | OpNone => merge_none sch cur t (DD s v f op od ov ch)
+            end) as [[t1 sg1]|e]; [|reflexivity].
+  destruct (merge_children sch _ (is_np_cont sch s) (forallb dd_dflt (l1 ++ l2)) true ch (dd_ch t1) (dd_dflt t1) [])
+    as [[[ch' fl'] ups]|e]; [|reflexivity].
+  cbn zeta. destruct (is_redundant sch _ _) as [[|]|e]; rewrite ?remove_nth_split, ?replace_nth_split; reflexivity.
+Qed.
+
+(* children of a subtree that is undone: the source children remove their counterparts one after the other *)
+Lemma undo_children step np oup K (mk_s mk_t : dnode -> dd) : forall R fl up,
+  (forall x, In x R -> forall l1 l2, (forall y, In y l1 -> dd_id sch y <> inst_id sch x) ->
+     exists sg, step (mk_s x) (l1 ++ mk_t x :: l2) = Ok (l1 ++ l2, sg)) ->
+  (forall y x, In y K -> In x R -> dd_id sch y <> inst_id sch x) ->
+  exists fl' ups, merge_children sch step np oup false (map mk_s R) (K ++ map mk_t R) fl up = Ok (K, fl', ups).
+Proof.
+  induction R as [|x R IH]; intros fl up Hstep HK.
+  - exists fl, up. cbn. rewrite app_nil_r. reflexivity.
+  - cbn [map]. rewrite merge_children_false_cons.
+    destruct (Hstep x (or_introl eq_refl) K (map mk_t R)) as [sg E]; [intros y Hy; apply (HK y x Hy); left; reflexivity|].
+    rewrite E. destruct (walks np fl oup sg) as [fl1 ups1].
+    apply IH; [intros y Hy; apply Hstep; right; exact Hy|intros y z Hy Hz; apply HK; [exact Hy|right; exact Hz]].
+Qed.
+
+Lemma child_inh_delete inh op : eff_op inh op = Some OpDelete -> child_inh inh op = Some OpDelete.
+Proof. destruct op as [[| | |]|]; cbn; intro H; try discriminate; assumption. Qed.
+
+Lemma nokeys_leadkeys l : nokeys sch (leadkeys sch l) = [].
+Proof.
+  induction l as [|x l IH]; [reflexivity|]. cbn [leadkeys]. destruct (is_key sch (d_sid x)) eqn:E; [|reflexivity].
+  cbn [nokeys]. rewrite E. exact IH.
+Qed.
+
+Lemma keys_nokeys_disjoint ch y x :
+  NoDup (ids sch ch) -> In y (leadkeys sch ch) -> In x (nokeys sch ch) -> inst_id sch y <> inst_id sch x.
+Proof.
+  intros Hn Hy Hx E. rewrite (lead_nokeys sch ch), ids_app in Hn.
+  apply (NoDup_app_in_both _ _ (inst_id sch y) Hn); [apply in_map; exact Hy|rewrite E; apply in_map; exact Hx].
+Qed.
+
+Lemma beq_bytes_refl' v : beq_bytes v v = true.
+Proof. apply beq_bytes_eq. reflexivity. Qed.
+
+(* a created subtree and the deletion of the same subtree cancel *)
+Lemma undo_cd (Hnouo : schema_nouo = true) b : wf_node sch b = true ->
+  forall inh_s os inh_t ot l1 l2,
+  eff_op inh_s os = Some OpDelete -> eff_op inh_t ot = Some OpCreate ->
+  (forall x, In x l1 -> dd_id sch x <> inst_id sch b) ->
+  exists sg, merge_r sch mdflt inh_s (dd_set_op (lift b) os) inh_t (l1 ++ dd_set_op (lift b) ot :: l2) = Ok (l1 ++ l2, sg).
+Proof.
+  induction b as [s v d m ch IH] using dnode_ind'. intros Hw inh_s os inh_t ot l1 l2 Hs Ht Hl1.
+  pose proof (wf_node_inv sch _ _ _ _ _ Hw) as W.
+  destruct (inst_id_some_uo sch (DN s v d m ch) (wn_uo _ _ _ _ _ _ W)) as [i Hi]. rewrite Hi in Hl1.
+  assert (Hids : forall o, dd_id sch (dd_set_op (lift (DN s v d m ch)) o) = Some i).
+  { intro o. rewrite dd_id_set_op, dd_id_lift; assumption. }
+  assert (Hes : eff_op inh_s (dd_op (dd_set_op (lift (DN s v d m ch)) os)) = Some OpDelete)
+    by (destruct (lift (DN s v d m ch)); exact Hs).
+  assert (Het : eff_op inh_t (dd_op (dd_set_op (lift (DN s v d m ch)) ot)) = Some OpCreate)
+    by (destruct (lift (DN s v d m ch)); exact Ht).
+  rewrite (merge_r_found inh_s _ inh_t l1 _ l2 i OpDelete OpCreate (nouo_all Hnouo _) Hes (Hids os) (Hids ot) Hl1 Het).
+  rewrite lift_unfold. cbn [dd_set_op]. set (fl := d && forallb dd_dflt (map lift ch)).
+  unfold merge_delete.
+  cbn [dd_is_term dd_sid dd_val dd_dflt dd_op dd_oval dd_odflt dd_ch dd_set_op dd_set_odflt dd_set_ch].
+  rewrite beq_bytes_refl'. cbn [negb]. rewrite andb_false_r. unfold dd_is_term. cbn [dd_sid].
+  (* the children of the target get the explicit create, the keys stay *)
+  set (mk_t := fun x => dd_set_op (lift x) (Some OpCreate)).
+  assert (Ekids : set_ops_nokeys sch true (map lift ch)
+            (fun c => match dd_op c with
+                      | Some _ => c
+                      | None => match dd_match_idx sch (map lift ch) (dd_id sch c) with
+                                | Some _ => dd_set_op c (Some OpCreate)
+                                | None => c
+                                end
+                      end) = map lift (leadkeys sch ch) ++ map mk_t (nokeys sch ch)).
+  { rewrite set_ops_nokeys_true, dd_leadkeys_map_lift, dd_nokeys_map_lift, map_map. f_equal.
+    apply map_ext_in. intros x Hx. unfold mk_t.
+    assert (Hop : dd_op (lift x) = None) by (destruct x; reflexivity). rewrite Hop.
+    pose proof (wn_ch _ _ _ _ _ _ W) as Hc. rewrite forallb_forall in Hc.
+    pose proof (Hc x (nokeys_in sch _ _ Hx)) as Hwx.
+    destruct (inst_id_some_uo sch x (wf_node_userord sch _ Hwx)) as [j Hj].
+    destruct (dd_match_idx_exists (map lift ch) (lift x) j) as [k Ek];
+      [apply in_map, (nokeys_in sch _ _ Hx)|rewrite dd_id_lift; assumption|].
+    rewrite (dd_id_lift sch x Hwx), Hj, Ek. reflexivity. }
+  assert (Hchildren : forall inh_t',
+            exists fl' ups,
+              merge_children sch (fun c cur' => merge_r sch mdflt (child_inh inh_s os) c inh_t' cur')
+                             (is_np_cont sch s) (forallb dd_dflt (l1 ++ l2)) true (map lift ch)
+                             (map lift (leadkeys sch ch) ++ map mk_t (nokeys sch ch)) fl [] =
+              Ok (map lift (leadkeys sch ch), fl', ups)).
+  { intros inh_t'. rewrite merge_children_lead, dd_nokeys_map_lift.
+    pose proof (wn_ch _ _ _ _ _ _ W) as Hc. rewrite forallb_forall in Hc.
+    apply (undo_children _ _ _ (map lift (leadkeys sch ch)) lift mk_t).
+    - intros x Hx l1' l2' Hl1'. rewrite Forall_forall in IH. pose proof (nokeys_in sch _ _ Hx) as Hxin.
+      rewrite <- (dd_set_op_lift_none x). unfold mk_t.
+      apply (IH x Hxin (Hc x Hxin)); [rewrite (child_inh_delete _ _ Hs); reflexivity|reflexivity|exact Hl1'].
+    - intros y x Hy Hx. apply in_map_iff in Hy. destruct Hy as [k [<- Hk]].
+      rewrite (dd_id_lift sch k); [|apply Hc; apply (leadkeys_in sch _ _ Hk)].
+      apply (keys_nokeys_disjoint ch); [apply (so_nodup _ _ (wn_sibs _ _ _ _ _ _ W))|exact Hk|exact Hx]. }
+  destruct (is_term sch s) eqn:Et.
+  - (* leaf / leaf-list: no children *)
+    assert (Hch0 : ch = []).
+    { pose proof (wn_kind _ _ _ _ _ _ W) as K. rewrite is_term_kind_of in Et.
+      destruct (kind_of sch s) as [[|]| | | |]; cbn in Et; try discriminate; try (destruct K as [-> _]; reflexivity). destruct K. }
+    subst ch. cbn [map set_ops_nokeys merge_children dd_ch dd_dflt dd_set_dflt dd_set_ch dd_op dd_set_odflt dd_set_op].
+    unfold is_redundant, dd_is_term. cbn [dd_sid dd_odflt dd_dflt eff_op]. rewrite Et.
+    rewrite Bool.eqb_reflx. eexists. reflexivity.
+  - cbn [dd_ch dd_dflt dd_op dd_set_ch dd_set_op dd_set_odflt]. rewrite Ekids.
+    destruct (Hchildren (child_inh inh_t (Some OpNone))) as [fl' [ups E]]. rewrite E.
+    cbn [dd_set_dflt dd_set_ch dd_op]. unfold is_redundant, dd_is_term. cbn [dd_sid dd_ch eff_op]. rewrite Et.
+    unfold has_nokey_child. rewrite dd_nokeys_map_lift, nokeys_leadkeys. cbn [map negb]. eexists. reflexivity.
+Qed.
+
+(* a deleted subtree and the creation of the same subtree cancel *)
+Lemma undo_dc (Hnouo : schema_nouo = true) b : wf_node sch b = true ->
+  forall inh_s os inh_t ot l1 l2,
+  eff_op inh_s os = Some OpCreate -> eff_op inh_t ot = Some OpDelete ->
+  (forall x, In x l1 -> dd_id sch x <> inst_id sch b) ->
+  exists sg, merge_r sch mdflt inh_s (dd_set_op (lift b) os) inh_t (l1 ++ dd_set_op (lift b) ot :: l2) = Ok (l1 ++ l2, sg).
+Proof.
+  induction b as [s v d m ch IH] using dnode_ind'. intros Hw inh_s os inh_t ot l1 l2 Hs Ht Hl1.
+  pose proof (wf_node_inv sch _ _ _ _ _ Hw) as W.
+  destruct (inst_id_some_uo sch (DN s v d m ch) (wn_uo _ _ _ _ _ _ W)) as [i Hi]. rewrite Hi in Hl1.
+  assert (Hids : forall o, dd_id sch (dd_set_op (lift (DN s v d m ch)) o) = Some i).
+  { intro o. rewrite dd_id_set_op, dd_id_lift; assumption. }
+  assert (Hes : eff_op inh_s (dd_op (dd_set_op (lift (DN s v d m ch)) os)) = Some OpCreate)
+    by (destruct (lift (DN s v d m ch)); exact Hs).
+  assert (Het : eff_op inh_t (dd_op (dd_set_op (lift (DN s v d m ch)) ot)) = Some OpDelete)
+    by (destruct (lift (DN s v d m ch)); exact Ht).
+  rewrite (merge_r_found inh_s _ inh_t l1 _ l2 i OpCreate OpDelete (nouo_all Hnouo _) Hes (Hids os) (Hids ot) Hl1 Het).
+  rewrite lift_unfold. cbn [dd_set_op]. set (fl := d && forallb dd_dflt (map lift ch)).
+  unfold merge_create.
+  cbn [dd_sid dd_val dd_dflt dd_op dd_oval dd_odflt dd_ch dd_set_op].
+  assert (Ecell : (match kind_of sch s with
+                   | KLeaf =>
+                       if mdflt && match si_dflts (sget sch s) with
+                                   | [] => false
+                                   | dv :: _ => beq_bytes dv v
+                                   end
+                       then (DD s v fl (Some OpNone) None None (map lift ch), [])
+                       else if beq_bytes v v then (DD s v fl (Some OpNone) None None (map lift ch), [])
+                            else let '(t', sg') := dd_change_term (dd_set_oval (DD s v fl (Some OpReplace) None None (map lift ch)) (Some v)) v in (t', sg')
+                   | _ => (DD s v fl (Some OpNone) None None (map lift ch), [])
+                   end) = (DD s v fl (Some OpNone) None None (map lift ch), @nil sig)).
+  { destruct (kind_of sch s); try reflexivity. rewrite beq_bytes_refl'. destruct (mdflt && _); reflexivity. }
+  rewrite Ecell. unfold dd_is_term. cbn [dd_sid].
+  set (mk_t := fun x => dd_set_op (lift x) (Some OpDelete)).
+  assert (Ekids : set_ops_nokeys sch true (map lift ch) (fun c => dd_set_op c (Some OpDelete)) =
+                  map lift (leadkeys sch ch) ++ map mk_t (nokeys sch ch)).
+  { rewrite set_ops_nokeys_true, dd_leadkeys_map_lift, dd_nokeys_map_lift, map_map. reflexivity. }
+  assert (Hchildren : forall inh_t',
+            exists fl' ups,
+              merge_children sch (fun c cur' => merge_r sch mdflt (child_inh inh_s os) c inh_t' cur')
+                             (is_np_cont sch s) (forallb dd_dflt (l1 ++ l2)) true (map lift ch)
+                             (map lift (leadkeys sch ch) ++ map mk_t (nokeys sch ch)) fl [] =
+              Ok (map lift (leadkeys sch ch), fl', ups)).
+  { intros inh_t'. rewrite merge_children_lead, dd_nokeys_map_lift.
+    pose proof (wn_ch _ _ _ _ _ _ W) as Hc. rewrite forallb_forall in Hc.
+    apply (undo_children _ _ _ (map lift (leadkeys sch ch)) lift mk_t).
+    - intros x Hx l1' l2' Hl1'. rewrite Forall_forall in IH. pose proof (nokeys_in sch _ _ Hx) as Hxin.
+      rewrite <- (dd_set_op_lift_none x). unfold mk_t.
+      apply (IH x Hxin (Hc x Hxin)); [rewrite (child_inh_create _ _ Hs); reflexivity|reflexivity|exact Hl1'].
+    - intros y x Hy Hx. apply in_map_iff in Hy. destruct Hy as [k [<- Hk]].
+      rewrite (dd_id_lift sch k); [|apply Hc; apply (leadkeys_in sch _ _ Hk)].
+      apply (keys_nokeys_disjoint ch); [apply (so_nodup _ _ (wn_sibs _ _ _ _ _ _ W))|exact Hk|exact Hx]. }
+  destruct (is_term sch s) eqn:Et.
+  - assert (Hch0 : ch = []).
+    { pose proof (wn_kind _ _ _ _ _ _ W) as K. rewrite is_term_kind_of in Et.
+      destruct (kind_of sch s) as [[|]| | | |]; cbn in Et; try discriminate; try (destruct K as [-> _]; reflexivity). destruct K. }
+    subst ch. cbn [map set_ops_nokeys merge_children dd_ch dd_dflt dd_set_dflt dd_set_ch dd_op dd_set_odflt dd_set_op].
+    unfold is_redundant, dd_is_term. cbn [dd_sid dd_odflt dd_dflt eff_op]. rewrite Et.
+    rewrite Bool.eqb_reflx. eexists. reflexivity.
+  - cbn [dd_ch dd_dflt dd_op dd_set_ch dd_set_op dd_set_odflt]. rewrite Ekids.
+    destruct (Hchildren (child_inh inh_t (Some OpNone))) as [fl' [ups E]]. rewrite E.
+    cbn [dd_set_dflt dd_set_ch dd_op]. unfold is_redundant, dd_is_term. cbn [dd_sid dd_ch eff_op]. rewrite Et.
+    unfold has_nokey_child. rewrite dd_nokeys_map_lift, nokeys_leadkeys. cbn [map negb]. eexists. reflexivity.
+Qed.
+
+(* ------------------------------------------------------------------------------------------- *)
+(* two diffs over the same pair of sibling lists talk about the same identities                   *)
+(* ------------------------------------------------------------------------------------------- *)
+Lemma sp_ids inh d oa ob : Sp sch inh d oa ob ->
+  exists i, dd_id sch d = Some i /\ (forall a, oa = Some a -> inst_id sch a = Some i) /\
+            (forall b, ob = Some b -> inst_id sch b = Some i).
+Proof.
+  intro H. destruct (apply_sp sch d inh oa ob H) as [i [Hi [_ [Ha Hb]]]]. exists i. repeat split; assumption.
+Qed.
+
+Lemma find_match_absent f i : ~ In (Some i) (ids sch f) -> find_match sch true f (Some i) = None.
+Proof. intro H. unfold find_match. rewrite (match_idx_absent sch f i H). reflexivity. Qed.
+
+Lemma itIds_in_eq (its : list item) it it' :
+  NoDup (itIds sch its) -> In it its -> In it' its -> dd_id sch (it_d it) = dd_id sch (it_d it') -> it = it'.
+Proof. intros Hn H1 H2 E. apply (NoDup_map_in_eq (fun x => dd_id sch (it_d x)) its); assumption. Qed.
+
+Lemma in_itA its a : In a (itA its) -> exists it, In it its /\ it_a it = Some a.
+Proof.
+  unfold itA. intro H. apply in_flat_map in H. destruct H as [it [Hit Ha]]. exists it. split; [exact Hit|].
+  destruct (it_a it); [destruct Ha as [->|[]]; reflexivity|destruct Ha].
+Qed.
+Lemma in_itB its b : In b (itB its) -> exists it, In it its /\ it_b it = Some b.
+Proof.
+  unfold itB. intro H. apply in_flat_map in H. destruct H as [it [Hit Ha]]. exists it. split; [exact Hit|].
+  destruct (it_b it); [destruct Ha as [->|[]]; reflexivity|destruct Ha].
+Qed.
+Lemma itA_intro its it a : In it its -> it_a it = Some a -> In a (itA its).
+Proof. intros H E. unfold itA. apply in_flat_map. exists it. split; [exact H|]. rewrite E. left. reflexivity. Qed.
+Lemma itB_intro its it b : In it its -> it_b it = Some b -> In b (itB its).
+Proof. intros H E. unfold itB. apply in_flat_map. exists it. split; [exact H|]. rewrite E. left. reflexivity. Qed.
+
+(* the instances an item is about are THE instances with its identity *)
+Lemma level_lookup inh its unch fa fb it i :
+  Forall (fun it => Sp sch inh (it_d it) (it_a it) (it_b it)) its -> NoDup (itIds sch its) ->
+  Permutation fa (itA its ++ unch) -> Permutation fb (itB its ++ unch) ->
+  NoDup (ids sch fa) -> NoDup (ids sch fb) ->
+  In it its -> dd_id sch (it_d it) = Some i ->
+  it_a it = find_match sch true fa (Some i) /\ it_b it = find_match sch true fb (Some i).
+Proof.
+  intros Hsp Hnd Hpa Hpb Hna Hnb Hit Hi. rewrite Forall_forall in Hsp.
+  destruct (sp_ids _ _ _ _ (Hsp it Hit)) as [i' [Hi' [Hia Hib]]]. assert (i' = i) by congruence. subst i'.
+  assert (Hside : forall (f f' : forest) (sel sel' : item -> option dnode) (pick pick' : list item -> forest),
+            (forall it0 x, In it0 its -> sel it0 = Some x -> In x (pick its)) ->
+            (forall x, In x (pick its) -> exists it0, In it0 its /\ sel it0 = Some x) ->
+            (forall it0 x, In it0 its -> sel' it0 = Some x -> In x (pick' its)) ->
+            Permutation f (pick its ++ unch) -> Permutation f' (pick' its ++ unch) -> NoDup (ids sch f) -> NoDup (ids sch f') ->
+            (forall it0 x, In it0 its -> sel it0 = Some x -> exists j, dd_id sch (it_d it0) = Some j /\ inst_id sch x = Some j) ->
+            (forall it0 x, In it0 its -> sel' it0 = Some x -> exists j, dd_id sch (it_d it0) = Some j /\ inst_id sch x = Some j) ->
+            (sel it <> None \/ sel' it <> None) ->
+            sel it = find_match sch true f (Some i)).
+  { intros f f' sel sel' pick pick' Hin Hout Hin' Hp Hp' Hn Hn' Hid Hid' Hne.
+    destruct (sel it) as [x|] eqn:Ex.
+    - symmetry. apply find_match_true_some; [exact Hn| |].
+      + apply (Permutation_in _ (Permutation_sym Hp)). apply in_or_app. left. apply (Hin it x Hit Ex).
+      + destruct (Hid it x Hit Ex) as [j [Hj Hx]]. congruence.
+    - symmetry. apply find_match_absent. intro Hex. apply in_map_iff in Hex. destruct Hex as [x [Hxi Hx]].
+      apply (Permutation_in _ Hp) in Hx. apply in_app_or in Hx. destruct Hx as [Hx|Hx].
+      + destruct (Hout x Hx) as [it0 [Hit0 E0]]. destruct (Hid it0 x Hit0 E0) as [j [Hj Hxj]].
+        assert (it0 = it) by (apply (itIds_in_eq its); try assumption; congruence). subst it0. congruence.
+      + (* x is unchanged, so it is in f' as well, next to the other side of the item *)
+        destruct Hne as [Hne|Hne]; [congruence|]. destruct (sel' it) as [y|] eqn:Ey; [|congruence].
+        destruct (Hid' it y Hit Ey) as [j [Hj Hyj]]. assert (j = i) by congruence. subst j.
+        apply (Permutation_NoDup (ids_perm sch _ _ Hp')) in Hn'. rewrite ids_app in Hn'.
+        apply (NoDup_app_in_both _ _ (Some i) Hn').
+        * rewrite <- Hyj. apply in_map. apply (Hin' it y Hit Ey).
+        * rewrite <- Hxi. apply in_map. exact Hx. }
+  pose proof (sp_sides _ _ _ _ _ (Hsp it Hit)) as Hne.
+  assert (HidA : forall it0 x, In it0 its -> it_a it0 = Some x -> exists j, dd_id sch (it_d it0) = Some j /\ inst_id sch x = Some j).
+  { intros it0 x H0 E0. destruct (sp_ids _ _ _ _ (Hsp it0 H0)) as [j [Hj [Ha' _]]]. exists j. split; [exact Hj|apply Ha', E0]. }
+  assert (HidB : forall it0 x, In it0 its -> it_b it0 = Some x -> exists j, dd_id sch (it_d it0) = Some j /\ inst_id sch x = Some j).
+  { intros it0 x H0 E0. destruct (sp_ids _ _ _ _ (Hsp it0 H0)) as [j [Hj [_ Hb']]]. exists j. split; [exact Hj|apply Hb', E0]. }
+  split.
+  - apply (Hside fa fb it_a it_b itA itB); try assumption.
+    + intros it0 x H0 E0. apply (itA_intro _ it0); assumption.
+    + apply in_itA.
+    + intros it0 x H0 E0. apply (itB_intro _ it0); assumption.
+  - apply (Hside fb fa it_b it_a itB itA); try assumption.
+    + intros it0 x H0 E0. apply (itB_intro _ it0); assumption.
+    + apply in_itB.
+    + intros it0 x H0 E0. apply (itA_intro _ it0); assumption.
+    + destruct Hne; [right|left]; assumption.
+Qed.
+
+(* an identity whose instances differ has an item *)
+Lemma level_cover inh its unch fa fb i :
+  Forall (fun it => Sp sch inh (it_d it) (it_a it) (it_b it)) its ->
+  Permutation fa (itA its ++ unch) -> Permutation fb (itB its ++ unch) ->
+  NoDup (ids sch fa) -> NoDup (ids sch fb) ->
+  find_match sch true fa (Some i) <> find_match sch true fb (Some i) ->
+  exists it, In it its /\ dd_id sch (it_d it) = Some i.
+Proof.
+  intros Hsp Hpa Hpb Hna Hnb Hne. rewrite Forall_forall in Hsp.
+  assert (Hone : forall (f f' : forest) (pick : list item -> forest) (sel : item -> option dnode) x,
+            (forall y, In y (pick its) -> exists it0, In it0 its /\ sel it0 = Some y) ->
+            (forall it0 y, In it0 its -> sel it0 = Some y -> exists j, dd_id sch (it_d it0) = Some j /\ inst_id sch y = Some j) ->
+            Permutation f (pick its ++ unch) -> (forall y, In y unch -> In y f') -> NoDup (ids sch f') ->
+            find_match sch true f (Some i) = Some x -> find_match sch true f' (Some i) <> Some x ->
+            exists it, In it its /\ dd_id sch (it_d it) = Some i).
+  { intros f f' pick sel x Hout Hid Hp Hun Hn' Ef Hne'.
+    destruct (find_match_true_inv sch _ _ _ Ef) as [Hx Hxi].
+    apply (Permutation_in _ Hp) in Hx. apply in_app_or in Hx. destruct Hx as [Hx|Hx].
+    - destruct (Hout x Hx) as [it0 [H0 E0]]. destruct (Hid it0 x H0 E0) as [j [Hj Hxj]]. exists it0. split; [exact H0|congruence].
+    - exfalso. apply Hne'. apply find_match_true_some; [exact Hn'|apply Hun, Hx|exact Hxi]. }
+  assert (HunA : forall y, In y unch -> In y fa).
+  { intros y Hy. apply (Permutation_in _ (Permutation_sym Hpa)). apply in_or_app. right. exact Hy. }
+  assert (HunB : forall y, In y unch -> In y fb).
+  { intros y Hy. apply (Permutation_in _ (Permutation_sym Hpb)). apply in_or_app. right. exact Hy. }
+  destruct (find_match sch true fa (Some i)) as [a|] eqn:Ea.
+  - apply (Hone fa fb itA it_a a); try assumption; [apply in_itA| |intro E; apply Hne; symmetry; exact E].
+    intros it0 y H0 E0. destruct (sp_ids _ _ _ _ (Hsp it0 H0)) as [j [Hj [Ha' _]]]. exists j. split; [exact Hj|apply Ha', E0].
+  - destruct (find_match sch true fb (Some i)) as [b|] eqn:Eb; [|congruence].
+    apply (Hone fb fa itB it_b b); try assumption; [apply in_itB| |rewrite Ea; discriminate].
+    intros it0 y H0 E0. destruct (sp_ids _ _ _ _ (Hsp it0 H0)) as [j [Hj [_ Hb']]]. exists j. split; [exact Hj|apply Hb', E0].
+Qed.
+
+(* ------------------------------------------------------------------------------------------- *)
+(* every diff node describes a real change                                                        *)
+(* ------------------------------------------------------------------------------------------- *)
+Lemma d_val_set_dflt' n f : d_val (set_dflt n f) = d_val n.
+Proof. destruct n; reflexivity. Qed.
+Lemma d_val_set_val' n v : d_val (set_val n v) = v.
+Proof. destruct n; reflexivity. Qed.
+Lemma d_ch_set_dflt' n f : d_ch (set_dflt n f) = d_ch n.
+Proof. destruct n; reflexivity. Qed.
+Lemma d_ch_set_ch' n c : d_ch (set_ch n c) = c.
+Proof. destruct n; reflexivity. Qed.
+Lemma d_dflt_set_val' n v : d_dflt (set_val n v) = d_dflt n.
+Proof. destruct n; reflexivity. Qed.
+
+Theorem sp_real d : forall inh oa ob, Sp sch inh d oa ob -> oa <> ob.
+Proof.
+  induction d as [s v fl op od ov ch IH] using dd_ind'. intros inh oa ob H.
+  inversion H as [inh0 d0 a i He Ha Hdd Hwf | inh0 d0 b i He Hb Hdd Hwf | inh0 d0 a i He Hk Hd Ha Hs Hne Hov Hod Hch0
+                 | inh0 d0 a i He Hk Hd Ha Hod Hch0 Hnany Hreal
+                 | inh0 d0 a i chb He Hk Hd Ha Hs Hnk Hlev Sa Hsa Sb Hsb Hfl Hidb Hkey Hnkey Hidk Hkch]; subst;
+    cbn [dd_op dd_sid dd_ch dd_val dd_dflt dd_oval dd_odflt] in *.
+  - discriminate.
+  - discriminate.
+  - intro E. inversion E as [E1]. assert (Ev : d_val a = v) by (rewrite E1; rewrite d_val_set_dflt', d_val_set_val'; reflexivity).
+    rewrite Ev, beq_bytes_refl' in Hne. discriminate.
+  - intro E. inversion E as [E1]. apply Hreal. rewrite E1. rewrite d_dflt_set_dflt. reflexivity.
+  - intro E. inversion E as [E1].
+    assert (Ech : d_ch a = chb) by (rewrite E1; rewrite d_ch_set_dflt', d_ch_set_ch'; reflexivity).
+    destruct Hlev as [its [unch [Eds [Hsp [Hnd [Hpa Hpb]]]]]].
+    destruct its as [|it0 its]; [cbn in Eds; congruence|].
+    pose proof (Forall_inv Hsp) as Hsp0.
+    destruct (sp_ids _ _ _ _ Hsp0) as [i0 [Hi0 _]].
+    destruct (level_lookup _ (it0 :: its) unch (d_ch a) chb it0 i0 Hsp Hnd Hpa Hpb (so_nodup _ _ Sa) (so_nodup _ _ Sb)
+                           (or_introl eq_refl) Hi0) as [La Lb].
+    rewrite Forall_forall in IH.
+    assert (Hin : In (it_d it0) ch).
+    { apply (dd_nokeys_in sch). rewrite Eds. left. reflexivity. }
+    apply (IH (it_d it0) Hin _ _ _ Hsp0). rewrite La, Lb, Ech. reflexivity.
+Qed.
+
+(* the diff nodes about an instance that exists on both sides *)
+Lemma sp_inv_ss inh d a b : Sp sch inh d (Some a) (Some b) ->
+  (exists i, eff_op inh (dd_op d) = Some OpReplace /\ kind_of sch (dd_sid d) = KLeaf /\ dd_id sch d = Some i /\
+             inst_id sch a = Some i /\ d_sid a = dd_sid d /\ beq_bytes (dd_val d) (d_val a) = false /\
+             dd_oval d = Some (d_val a) /\ dd_odflt d = Some (d_dflt a) /\ dd_ch d = [] /\
+             b = set_dflt (set_val a (dd_val d)) (dd_dflt d)) \/
+  (exists i, eff_op inh (dd_op d) = Some OpNone /\ is_term sch (dd_sid d) = true /\ dd_id sch d = Some i /\
+             inst_id sch a = Some i /\ dd_odflt d = Some (d_dflt a) /\ dd_ch d = [] /\
+             kind_of sch (dd_sid d) <> KAny /\ dd_dflt d <> d_dflt a /\ b = set_dflt a (dd_dflt d)) \/
+  (exists i chb, eff_op inh (dd_op d) = Some OpNone /\ is_term sch (dd_sid d) = false /\ dd_id sch d = Some i /\
+             inst_id sch a = Some i /\ d_sid a = dd_sid d /\ dd_nokeys sch (dd_ch d) <> [] /\
+             LevelSp sch (Sp sch (child_inh inh (dd_op d))) (dd_nokeys sch (dd_ch d)) (d_ch a) chb /\
+             SibOk sch (d_ch a) /\ AllSome sch (d_ch a) /\ SibOk sch chb /\ AllSome sch chb /\
+             (forall c, In c (dd_nokeys sch (dd_ch d)) -> is_key sch (dd_sid c) = false) /\
+             b = set_dflt (set_ch a chb) (is_np_cont sch (d_sid a) && forallb d_dflt chb)).
+Proof.
+  intro H.
+  inversion H as [| | inh0 d0 a0 i He Hk Hd Ha Hs Hne Hov Hod Hch0
+                 | inh0 d0 a0 i He Hk Hd Ha Hod Hch0 Hnany Hreal
+                 | inh0 d0 a0 i chb He Hk Hd Ha Hs Hnk Hlev Sa Hsa Sb Hsb Hfl Hidb Hkey Hnkey Hidk Hkch]; subst.
+  - left. exists i. repeat (split; [assumption|]). reflexivity.
+  - right. left. exists i. repeat (split; [assumption|]). reflexivity.
+  - right. right. exists i, chb. repeat (split; [assumption|]). reflexivity.
+Qed.
+
+Lemma dd_sid_of_id d i : dd_id sch d = Some i -> iid_sid i = dd_sid d.
+Proof. unfold dd_id. intro H. rewrite (inst_id_sid sch _ _ H). destruct d; reflexivity. Qed.
+
+Lemma all_keys_nokeys l : (forall k, In k l -> is_key sch (dd_sid k) = true) -> dd_nokeys sch l = [].
+Proof.
+  induction l as [|k l IH]; intro H; [reflexivity|]. cbn [dd_nokeys]. rewrite (H k (or_introl eq_refl)).
+  apply IH. intros x Hx. apply H. right. exact Hx.
+Qed.
+
+(* ------------------------------------------------------------------------------------------- *)
+(* a diff node and the node that undoes it cancel                                                 *)
+(* ------------------------------------------------------------------------------------------- *)
+Definition UndoPair (inh_s inh_t : option dop) (s t : dd) : Prop :=
+  forall l1 l2, (forall x, In x l1 -> dd_id sch x <> dd_id sch t) ->
+  exists sg, merge_r sch mdflt inh_s s inh_t (l1 ++ t :: l2) = Ok (l1 ++ l2, sg).
+
+Lemma in_map_split {A B} (f : A -> B) l y : In y (map f l) -> exists l1 x l2, l = l1 ++ x :: l2 /\ f x = y.
+Proof.
+  intro H. apply in_map_iff in H. destruct H as [x [E Hx]]. apply in_split in Hx. destruct Hx as [l1 [l2 ->]].
+  exists l1, x, l2. split; [reflexivity|exact E].
+Qed.
+
+Lemma undo_fold inh_s inh_t np oup K : forall ss rem fl up,
+  NoDup (map (dd_id sch) ss) -> NoDup (map (dd_id sch) rem) ->
+  (forall i, In i (map (dd_id sch) ss) <-> In i (map (dd_id sch) rem)) ->
+  (forall s t, In s ss -> In t rem -> dd_id sch s = dd_id sch t -> UndoPair inh_s inh_t s t) ->
+  (forall k t, In k K -> In t rem -> dd_id sch k <> dd_id sch t) ->
+  exists fl' ups,
+    merge_children sch (fun c cur' => merge_r sch mdflt inh_s c inh_t cur') np oup false ss (K ++ rem) fl up = Ok (K, fl', ups).
+Proof.
+  induction ss as [|s ss IH]; intros rem fl up Hns Hnr Hiff Hpair HK.
+  - destruct rem as [|t rem].
+    + exists fl, up. cbn. rewrite app_nil_r. reflexivity.
+    + exfalso. apply (proj2 (Hiff (dd_id sch t))). left. reflexivity.
+  - assert (Hin : In (dd_id sch s) (map (dd_id sch) rem)) by (apply Hiff; left; reflexivity).
+    destruct (in_map_split _ _ _ Hin) as [r1 [t [r2 [-> Et]]]].
+    rewrite merge_children_false_cons.
+    destruct (Hpair s t (or_introl eq_refl)) with (l1 := K ++ r1) (l2 := r2) as [sg E].
+    + apply in_or_app. right. left. reflexivity.
+    + symmetry. exact Et.
+    + intros x Hx. apply in_app_or in Hx. destruct Hx as [Hx|Hx].
+      * apply HK; [exact Hx|apply in_or_app; right; left; reflexivity].
+      * rewrite map_app in Hnr. cbn [map] in Hnr. apply NoDup_remove_2 in Hnr. intro Ex. apply Hnr.
+        apply in_or_app. left. rewrite <- Ex. apply in_map. exact Hx.
+    + rewrite <- app_assoc in E. cbn [app] in E. rewrite E. rewrite <- app_assoc.
+      destruct (walks np fl oup sg) as [fl1 ups1].
+      cbn [map] in Hns. inversion Hns as [|? ? Hns1 Hns2]; subst.
+      assert (Hnr' : NoDup (map (dd_id sch) (r1 ++ r2))).
+      { rewrite map_app in *. cbn [map] in Hnr. apply NoDup_remove_1 in Hnr. exact Hnr. }
+      apply IH.
+      * exact Hns2.
+      * exact Hnr'.
+      * intro i. split.
+        -- intro Hi. assert (Hi' : In i (map (dd_id sch) (r1 ++ t :: r2))) by (apply Hiff; right; exact Hi).
+           rewrite map_app in Hi'. cbn [map] in Hi'. apply in_app_or in Hi'. rewrite map_app. apply in_or_app.
+           destruct Hi' as [Hi'|[Hi'|Hi']]; [left; exact Hi'| |right; exact Hi'].
+           exfalso. apply Hns1. rewrite <- Et, Hi'. exact Hi.
+        -- intro Hi. assert (Hi' : In i (map (dd_id sch) (s :: ss))).
+           { apply Hiff. rewrite map_app in *. cbn [map]. apply in_app_or in Hi. apply in_or_app.
+             destruct Hi; [left|right; right]; assumption. }
+           destruct Hi' as [Hi'|Hi']; [|exact Hi']. exfalso.
+           rewrite map_app in Hnr. cbn [map] in Hnr. apply NoDup_remove_2 in Hnr. apply Hnr.
+           rewrite Et, Hi'. rewrite <- map_app. exact Hi.
+      * intros s' t' Hs' Ht' Eid. apply Hpair; [right; exact Hs'| |exact Eid].
+        apply in_app_or in Ht'. apply in_or_app. destruct Ht'; [left|right; right]; assumption.
+      * intros k t' Hk Ht'. apply HK; [exact Hk|].
+        apply in_app_or in Ht'. apply in_or_app. destruct Ht'; [left|right; right]; assumption.
+Qed.
+
+Lemma inst_id_set_dflt_val_leaf n v f : kind_of sch (d_sid n) = KLeaf -> inst_id sch (set_dflt (set_val n v) f) = inst_id sch n.
+Proof. intro H. rewrite inst_id_set_dflt. apply inst_id_set_val_leaf. exact H. Qed.
+
+Lemma d_dflt_set_dflt' n f : d_dflt (set_dflt n f) = f.
+Proof. destruct n; reflexivity. Qed.
+Lemma d_sid_set' n v f : d_sid (set_dflt (set_val n v) f) = d_sid n.
+Proof. destruct n; reflexivity. Qed.
+Lemma d_sid_set_dflt' n f : d_sid (set_dflt n f) = d_sid n.
+Proof. destruct n; reflexivity. Qed.
+Lemma d_sid_set_ch' n c f : d_sid (set_dflt (set_ch n c) f) = d_sid n.
+Proof. destruct n; reflexivity. Qed.
+
+Theorem undo_node (Hnouo : schema_nouo = true) s :
+  forall inh_s inh_t t oa ob, Sp sch inh_s s ob oa -> Sp sch inh_t t oa ob -> UndoPair inh_s inh_t s t.
+Proof.
+  induction s as [ss vs fs ops ods ovs chs IH] using dd_ind'. intros inh_s inh_t t oa ob Hs Ht.
+  destruct oa as [a|], ob as [b|].
+  - (* the instance exists on both sides *)
+    destruct (sp_inv_ss _ _ _ _ Hs) as [[i S]|[[i S]|[i [cha S]]]];
+    destruct (sp_inv_ss _ _ _ _ Ht) as [[i' T]|[[i' T]|[i' [chb T]]]].
+    + (* replace / replace back *)
+      destruct S as [Se [Sk [Sid [Sb [Ssid [Sne [Sov [Sod [Sch Sa]]]]]]]]].
+      destruct T as [Te [Tk [Tid [Ta [Tsid [Tne [Tov [Tod [Tch Tb]]]]]]]]].
+      cbn [dd_op dd_sid dd_val dd_dflt dd_oval dd_odflt dd_ch] in *. subst ovs ods chs.
+      assert (Eva : d_val a = vs) by (rewrite Sa, d_val_set_dflt', d_val_set_val'; reflexivity).
+      assert (Efa : d_dflt a = fs) by (rewrite Sa, d_dflt_set_dflt'; reflexivity).
+      assert (Ei : i' = i).
+      { rewrite Sa, inst_id_set_dflt_val_leaf in Ta; [congruence|rewrite Ssid; exact Sk]. }
+      subst i'. intros l1 l2 Hl1. rewrite Tid in Hl1.
+      destruct t as [st vt ft opt odt ovt cht]. cbn [dd_op dd_sid dd_val dd_dflt dd_oval dd_odflt dd_ch] in *. subst ovt odt cht.
+      rewrite (merge_r_found inh_s (DD ss vs fs ops (Some (d_dflt b)) (Some (d_val b)) []) inh_t l1
+                             (DD st vt ft opt (Some (d_dflt a)) (Some (d_val a)) []) l2 i OpReplace OpReplace
+                             (nouo_all Hnouo _) Se Sid Tid Hl1 Te).
+      unfold merge_replace, dd_change_term.
+      cbn [dd_sid dd_val dd_dflt dd_op dd_oval dd_odflt dd_ch dd_set_op dd_set_val dd_set_dflt dd_set_oval].
+      rewrite Tk, Eva in *. rewrite Tne, beq_bytes_refl'.
+      cbn [dd_set_op dd_set_oval dd_set_dflt merge_children dd_ch dd_dflt dd_set_ch dd_op].
+      unfold is_redundant, dd_is_term. cbn [dd_sid dd_odflt dd_dflt eff_op].
+      rewrite is_term_kind_of, Tk, Efa. cbn [is_term_kind]. rewrite Bool.eqb_reflx. eexists. reflexivity.
+    + (* replace against a flag change: the values differ *)
+      exfalso. destruct S as [_ [_ [_ [_ [_ [Sne [_ [_ [_ Sa]]]]]]]]]. destruct T as [_ [_ [_ [_ [_ [_ [_ [_ Tb]]]]]]]].
+      cbn [dd_val] in Sne. rewrite Tb, d_val_set_dflt', Sa, d_val_set_dflt', d_val_set_val', beq_bytes_refl' in Sne. discriminate.
+    + exfalso. destruct S as [_ [Sk [_ [_ [Ssid [_ [_ [_ [_ Sa]]]]]]]]]. destruct T as [_ [Tt [_ [_ [Tsid _]]]]].
+      rewrite <- Tsid, Sa, d_sid_set', Ssid, is_term_kind_of, Sk in Tt. discriminate.
+    + exfalso. destruct S as [_ [_ [_ [_ [_ [_ [_ [_ Sa]]]]]]]]. destruct T as [_ [_ [_ [_ [_ [Tne [_ [_ [_ Tb]]]]]]]]].
+      rewrite Sa, d_val_set_dflt', Tb, d_val_set_dflt', d_val_set_val', beq_bytes_refl' in Tne. discriminate.
+    + (* flag change / flag change back *)
+      destruct S as [Se [St [Sid [Sb [Sod [Sch [Sany [Sreal Sa]]]]]]]].
+      destruct T as [Te [Tt [Tid [Ta [Tod [Tch [Tany [Treal Tb]]]]]]]].
+      cbn [dd_op dd_sid dd_val dd_dflt dd_oval dd_odflt dd_ch] in *. subst ods chs.
+      assert (Efa : d_dflt a = fs) by (rewrite Sa, d_dflt_set_dflt'; reflexivity).
+      assert (Ei : i' = i) by (rewrite Sa, inst_id_set_dflt in Ta; congruence).
+      subst i'. intros l1 l2 Hl1. rewrite Tid in Hl1.
+      destruct t as [st vt ft opt odt ovt cht]. cbn [dd_op dd_sid dd_val dd_dflt dd_oval dd_odflt dd_ch] in *. subst odt cht.
+      rewrite (merge_r_found inh_s (DD ss vs fs ops (Some (d_dflt b)) ovs []) inh_t l1
+                             (DD st vt ft opt (Some (d_dflt a)) ovt []) l2 i OpNone OpNone
+                             (nouo_all Hnouo _) Se Sid Tid Hl1 Te).
+      unfold merge_none, dd_is_term. cbn [dd_sid dd_dflt]. rewrite St.
+      cbn [dd_set_dflt merge_children dd_ch dd_dflt dd_set_ch dd_op].
+      unfold is_redundant, dd_is_term. cbn [dd_sid dd_odflt dd_dflt dd_op]. rewrite Te, Tt, Efa, Bool.eqb_reflx.
+      eexists. reflexivity.
+    + exfalso. destruct S as [_ [St [Sid [Sb [_ [_ [_ [_ Sa]]]]]]]]. destruct T as [_ [Tt [_ [_ [Tsid _]]]]].
+      rewrite <- Tsid, Sa, d_sid_set_dflt' in Tt. rewrite <- (dd_sid_of_id _ _ Sid), (inst_id_sid sch _ _ Sb) in St. congruence.
+    + exfalso. destruct S as [_ [St [_ [_ [Ssid _]]]]]. destruct T as [_ [Tk [_ [_ [Tsid [_ [_ [_ [_ Tb]]]]]]]]].
+      rewrite <- Ssid, Tb, d_sid_set', Tsid, is_term_kind_of, Tk in St. discriminate.
+    + exfalso. destruct S as [_ [St [Sid [Sb [Ssid _]]]]]. destruct T as [_ [Tt [Tid [Ta [_ [_ [_ [_ Tb]]]]]]]].
+      rewrite <- Ssid, Tb, d_sid_set_dflt' in St.
+      rewrite <- (dd_sid_of_id _ _ Tid), (inst_id_sid sch _ _ Ta) in Tt. congruence.
+    + (* none on an inner node on both sides: the level below *)
+      destruct S as [Se [St [Sid [Sb [Ssid [Snk [Slev [SSb [SAb [SSa [SAa [Snkey Sa]]]]]]]]]]]].
+      destruct T as [Te [Tt [Tid [Ta [Tsid [Tnk [Tlev [TSa [TAa [TSb [TAb [Tnkey Tb]]]]]]]]]]]].
+      assert (Echa : d_ch a = cha) by (rewrite Sa, d_ch_set_dflt', d_ch_set_ch'; reflexivity).
+      assert (Echb : d_ch b = chb) by (rewrite Tb, d_ch_set_dflt', d_ch_set_ch'; reflexivity).
+      assert (Ei : i' = i).
+      { assert (E1 : inst_id sch (set_ch b cha) = Some i') by (rewrite Sa, inst_id_set_dflt in Ta; exact Ta).
+        (* same schema node, and the identity of b and of a are tied by the two diffs: use the sids and the fact that
+           both are identities of a *)
+        clear - Ta Sa Tb Sb Hs Ht. destruct (sp_ids _ _ _ _ Hs) as [j [_ [Hjb Hja]]].
+        pose proof (Hjb b eq_refl). pose proof (Hja a eq_refl). congruence. }
+      subst i'. intros l1 l2 Hl1. rewrite Tid in Hl1.
+      destruct t as [st vt ft opt odt ovt cht]. cbn [dd_op dd_sid dd_val dd_dflt dd_oval dd_odflt dd_ch] in *.
+      rewrite (merge_r_found inh_s (DD ss vs fs ops ods ovs chs) inh_t l1 (DD st vt ft opt odt ovt cht) l2 i OpNone OpNone
+                             (nouo_all Hnouo _) Se Sid Tid Hl1 Te).
+      unfold merge_none, dd_is_term. cbn [dd_sid dd_dflt]. rewrite St. cbn [dd_ch dd_dflt dd_op].
+      destruct Slev as [its_s [unch_s [Eds_s [Hsp_s [Hnd_s [Hpa_s Hpb_s]]]]]].
+      destruct Tlev as [its_t [unch_t [Eds_t [Hsp_t [Hnd_t [Hpa_t Hpb_t]]]]]].
+      rewrite Echa in *. rewrite Echb in *.
+      rewrite merge_children_lead, Eds_s.
+      pose proof (so_nodup _ _ SSb) as Nb. pose proof (so_nodup _ _ SSa) as Na.
+      (* an item of either diff: its identity and what it is about *)
+      assert (LS : forall it j, In it its_s -> dd_id sch (it_d it) = Some j ->
+                 it_a it = find_match sch true chb (Some j) /\ it_b it = find_match sch true cha (Some j)).
+      { intros it j Hit Hj. apply (level_lookup (child_inh inh_s ops) its_s unch_s chb cha it j); assumption. }
+      assert (LT : forall it j, In it its_t -> dd_id sch (it_d it) = Some j ->
+                 it_a it = find_match sch true cha (Some j) /\ it_b it = find_match sch true chb (Some j)).
+      { intros it j Hit Hj. apply (level_lookup (child_inh inh_t opt) its_t unch_t cha chb it j); assumption. }
+      destruct (undo_fold (child_inh inh_s ops) (child_inh inh_t opt) (is_np_cont sch ss) (forallb dd_dflt (l1 ++ l2))
+                          (dd_leadkeys sch cht) (map it_d its_s) (map it_d its_t) ft []) as [fl' [ups E]].
+      * rewrite map_map. exact Hnd_s.
+      * rewrite map_map. exact Hnd_t.
+      * (* the same identities *)
+        intro oi. rewrite !map_map. split; intro Hin; apply in_map_iff in Hin; destruct Hin as [it [Eoi Hit]].
+        -- rewrite Forall_forall in Hsp_s. destruct (sp_ids _ _ _ _ (Hsp_s it Hit)) as [j [Hj _]].
+           destruct (LS it j Hit Hj) as [La Lb]. pose proof (sp_real _ _ _ _ (Hsp_s it Hit)) as Hr.
+           destruct (level_cover (child_inh inh_t opt) its_t unch_t cha chb j Hsp_t Hpa_t Hpb_t Na Nb) as [it' [Hit' Hj']].
+           { intro Eq. apply Hr. rewrite La, Lb. symmetry. exact Eq. }
+           apply in_map_iff. exists it'. split; [congruence|exact Hit'].
+        -- rewrite Forall_forall in Hsp_t. destruct (sp_ids _ _ _ _ (Hsp_t it Hit)) as [j [Hj _]].
+           destruct (LT it j Hit Hj) as [La Lb]. pose proof (sp_real _ _ _ _ (Hsp_t it Hit)) as Hr.
+           destruct (level_cover (child_inh inh_s ops) its_s unch_s chb cha j Hsp_s Hpa_s Hpb_s Nb Na) as [it' [Hit' Hj']].
+           { intro Eq. apply Hr. rewrite La, Lb. symmetry. exact Eq. }
+           apply in_map_iff. exists it'. split; [congruence|exact Hit'].
+      * (* pairs with one identity cancel: induction hypothesis *)
+        intros s' t' Hs' Ht' Eid. apply in_map_iff in Hs'. destruct Hs' as [its' [<- Hits']].
+        apply in_map_iff in Ht'. destruct Ht' as [itt' [<- Hitt']].
+        rewrite Forall_forall in Hsp_s, Hsp_t, IH.
+        destruct (sp_ids _ _ _ _ (Hsp_s its' Hits')) as [j [Hj _]].
+        assert (Hj' : dd_id sch (it_d itt') = Some j) by congruence.
+        destruct (LS its' j Hits' Hj) as [La Lb]. destruct (LT itt' j Hitt' Hj') as [La' Lb'].
+        apply (IH (it_d its')) with (oa := find_match sch true cha (Some j)) (ob := find_match sch true chb (Some j)).
+        -- apply (dd_nokeys_in sch). rewrite Eds_s. apply in_map. exact Hits'.
+        -- rewrite <- La, <- Lb. apply Hsp_s, Hits'.
+        -- rewrite <- La', <- Lb'. apply Hsp_t, Hitt'.
+      * (* the keys of the target are about other identities *)
+        intros k t' Hk Ht' Eid. apply in_map_iff in Ht'. destruct Ht' as [itt' [<- Hitt']].
+        rewrite Forall_forall in Hsp_t. destruct (sp_ids _ _ _ _ (Hsp_t itt' Hitt')) as [j [Hj _]].
+        rewrite Hj in Eid. destruct (dd_leadkeys_in sch _ _ Hk) as [_ Hkk].
+        rewrite <- (dd_sid_of_id _ _ Eid), (dd_sid_of_id _ _ Hj) in Hkk.
+        rewrite (Tnkey (it_d itt')) in Hkk; [discriminate|]. rewrite Eds_t. apply in_map. exact Hitt'.
+      * rewrite <- Eds_t, <- (dd_lead_nokeys sch cht) in E. rewrite E.
+        cbn [dd_set_dflt dd_set_ch dd_op]. unfold is_redundant, dd_is_term. cbn [dd_sid dd_ch]. rewrite Te, Tt.
+        unfold has_nokey_child. rewrite all_keys_nokeys; [|intros k Hk; apply (dd_leadkeys_in sch _ _ Hk)].
+        cbn [negb]. eexists. reflexivity.
+  - (* the instance exists in the first tree only: the source creates what the target deletes *)
+    inversion Hs as [| inh0 d0 b0 i He Hb Hdd Hwf | | |]; subst.
+    inversion Ht as [inh0 d0 b0 i' He' Hb' Hdd' Hwf' | | | |]; subst.
+    intros l1 l2 Hl1. rewrite Hdd. rewrite Hdd' in Hl1 |- *.
+    apply (undo_dc Hnouo a Hwf); [exact He|exact He'|].
+    rewrite dd_id_set_op, dd_id_lift in Hl1; assumption.
+  - (* the instance exists in the second tree only: the source deletes what the target creates *)
+    inversion Hs as [inh0 d0 b0 i He Hb Hdd Hwf | | | |]; subst.
+    inversion Ht as [| inh0 d0 b0 i' He' Hb' Hdd' Hwf' | | |]; subst.
+    intros l1 l2 Hl1. rewrite Hdd. rewrite Hdd' in Hl1 |- *.
+    apply (undo_cd Hnouo b Hwf); [exact He|exact He'|].
+    rewrite dd_id_set_op, dd_id_lift in Hl1; assumption.
+  - exfalso. destruct (sp_sides _ _ _ _ _ Hs) as [H|H]; apply H; reflexivity.
+Qed.
+
+(* one level: the diff nodes of [fb becomes fa] remove the diff nodes of [fa becomes fb] *)
+Lemma undo_level (Hnouo : schema_nouo = true) inh_s inh_t np oup K its_s unch_s its_t unch_t fa fb fl up :
+  Forall (fun it => Sp sch inh_s (it_d it) (it_a it) (it_b it)) its_s -> NoDup (itIds sch its_s) ->
+  Permutation fb (itA its_s ++ unch_s) -> Permutation fa (itB its_s ++ unch_s) ->
+  Forall (fun it => Sp sch inh_t (it_d it) (it_a it) (it_b it)) its_t -> NoDup (itIds sch its_t) ->
+  Permutation fa (itA its_t ++ unch_t) -> Permutation fb (itB its_t ++ unch_t) ->
+  NoDup (ids sch fa) -> NoDup (ids sch fb) ->
+  (forall k t, In k K -> In t (map it_d its_t) -> dd_id sch k <> dd_id sch t) ->
+  exists fl' ups,
+    merge_children sch (fun c cur' => merge_r sch mdflt inh_s c inh_t cur') np oup false (map it_d its_s)
+                   (K ++ map it_d its_t) fl up = Ok (K, fl', ups).
+Proof.
+  intros Hsp_s Hnd_s Hpa_s Hpb_s Hsp_t Hnd_t Hpa_t Hpb_t Na Nb HK.
+  assert (LS : forall it j, In it its_s -> dd_id sch (it_d it) = Some j ->
+             it_a it = find_match sch true fb (Some j) /\ it_b it = find_match sch true fa (Some j)).
+  { intros it j Hit Hj. apply (level_lookup inh_s its_s unch_s fb fa it j); assumption. }
+  assert (LT : forall it j, In it its_t -> dd_id sch (it_d it) = Some j ->
+             it_a it = find_match sch true fa (Some j) /\ it_b it = find_match sch true fb (Some j)).
+  { intros it j Hit Hj. apply (level_lookup inh_t its_t unch_t fa fb it j); assumption. }
+  apply undo_fold.
+  - rewrite map_map. exact Hnd_s.
+  - rewrite map_map. exact Hnd_t.
+  - intro oi. rewrite !map_map. split; intro Hin; apply in_map_iff in Hin; destruct Hin as [it [Eoi Hit]].
+    + rewrite Forall_forall in Hsp_s. destruct (sp_ids _ _ _ _ (Hsp_s it Hit)) as [j [Hj _]].
+      destruct (LS it j Hit Hj) as [La Lb]. pose proof (sp_real _ _ _ _ (Hsp_s it Hit)) as Hr.
+      destruct (level_cover inh_t its_t unch_t fa fb j Hsp_t Hpa_t Hpb_t Na Nb) as [it' [Hit' Hj']].
+      { intro Eq. apply Hr. rewrite La, Lb. symmetry. exact Eq. }
+      apply in_map_iff. exists it'. split; [congruence|exact Hit'].
+    + rewrite Forall_forall in Hsp_t. destruct (sp_ids _ _ _ _ (Hsp_t it Hit)) as [j [Hj _]].
+      destruct (LT it j Hit Hj) as [La Lb]. pose proof (sp_real _ _ _ _ (Hsp_t it Hit)) as Hr.
+      destruct (level_cover inh_s its_s unch_s fb fa j Hsp_s Hpa_s Hpb_s Nb Na) as [it' [Hit' Hj']].
+      { intro Eq. apply Hr. rewrite La, Lb. symmetry. exact Eq. }
+      apply in_map_iff. exists it'. split; [congruence|exact Hit'].
+  - intros s' t' Hs' Ht' Eid. apply in_map_iff in Hs'. destruct Hs' as [its' [<- Hits']].
+    apply in_map_iff in Ht'. destruct Ht' as [itt' [<- Hitt']].
+    rewrite Forall_forall in Hsp_s, Hsp_t.
+    destruct (sp_ids _ _ _ _ (Hsp_s its' Hits')) as [j [Hj _]].
+    assert (Hj' : dd_id sch (it_d itt') = Some j) by congruence.
+    destruct (LS its' j Hits' Hj) as [La Lb]. destruct (LT itt' j Hitt' Hj') as [La' Lb'].
+    apply (undo_node Hnouo (it_d its')) with (oa := find_match sch true fa (Some j)) (ob := find_match sch true fb (Some j)).
+    + rewrite <- La, <- Lb. apply Hsp_s, Hits'.
+    + rewrite <- La', <- Lb'. apply Hsp_t, Hitt'.
+  - exact HK.
+Qed.
+
+Lemma merge_roots_children : forall ss ts np oup fl up ts' fl' up',
+  merge_children sch (fun c cur' => merge_r sch mdflt None c None cur') np oup false ss ts fl up = Ok (ts', fl', up') ->
+  merge_roots sch mdflt ss ts = Ok ts'.
+Proof.
+  induction ss as [|x ss IH]; intros ts np oup fl up ts' fl' up' H.
+  - cbn in H. inversion H; subst. reflexivity.
+  - rewrite merge_children_false_cons in H. cbn [merge_roots].
+    destruct (merge_r sch mdflt None x None ts) as [[ts1 sg]|e]; [|discriminate].
+    destruct (walks np fl oup sg) as [fl1 ups]. apply (IH _ _ _ _ _ _ _ _ H).
+Qed.
+
+(* C13: merging the diff that undoes the changes into the diff leaves an empty diff *)
+Theorem merge_undo (Hnouo : schema_nouo = true) fa fb : wfb sch fa = true -> wfb sch fb = true ->
+  exists d1 d2, diff sch true fa fb = Ok d1 /\ diff sch true fb fa = Ok d2 /\ merge sch mdflt (map redup d1) d2 = Ok [].
+Proof.
+  intros Ha Hb. destruct (diff_sp sch fa fb Ha Hb) as [d1 [E1 Hsp1]]. destruct (diff_sp sch fb fa Hb Ha) as [d2 [E2 Hsp2]].
+  exists d1, d2. split; [exact E1|]. split; [exact E2|].
+  assert (Hsp1' : LevelSp sch (Sp sch None) (map redup d1) fa fb).
+  { apply (levelsp_map sch (Sp sch None) (Sp sch None) redup); [apply dd_id_redup| |exact Hsp1].
+    intros d oa ob _ H. apply redup_sp. exact H. }
+  destruct Hsp1' as [its_t [unch_t [Eds_t [Hsp_t [Hnd_t [Hpa_t Hpb_t]]]]]].
+  destruct Hsp2 as [its_s [unch_s [Eds_s [Hsp_s [Hnd_s [Hpa_s Hpb_s]]]]]].
+  pose proof (wfb_sibs sch _ Ha) as Wa. pose proof (wfb_sibs sch _ Hb) as Wb.
+  destruct (undo_level Hnouo None None false false [] its_s unch_s its_t unch_t fa fb false [] Hsp_s Hnd_s Hpa_s Hpb_s
+                       Hsp_t Hnd_t Hpa_t Hpb_t (so_nodup _ _ (ws_sibs _ _ Wa)) (so_nodup _ _ (ws_sibs _ _ Wb)))
+    as [fl' [ups E]]; [intros k t []|].
+  unfold merge. rewrite Eds_s, Eds_t. cbn [app] in E. apply (merge_roots_children _ _ _ _ _ _ _ _ _ E).
+Qed.
+End WithSchema.
